@@ -138,8 +138,10 @@ def diff_cases(ctx: Ctx):
 
 # ---------------------------------------------------------------- known findings
 
-def load_known():
-    p = VERIF / "known_findings.json"
+def load_known(pid: str):
+    """known_findings/<pid>.json: {"findings": [{"key","what","witness"}], "fixed": ["fixed: property=<id> <commit> <what failed>"]}
+    committed, never written at run time"""
+    p = VERIF / "known_findings" / (pid + ".json")
     if not p.exists():
         return {"findings": [], "fixed": []}
     return json.loads(p.read_text())
